@@ -174,6 +174,11 @@ func (v *FnVC) encodeCall(ins ssa.Instruction, c *ssa.CallCommon, res ssa.Value)
 	}
 	name, fn := v.calleeName(c)
 	args := v.callArgs(c)
+	if v.C != nil {
+		if why := jsonRoundTripRisk(c, v.W.Module); why != "" {
+			v.oblige("json-roundtrip", "false", "writing the value with encoding/json and reading it back is the identity (assumed by the contracts): "+why, ins.Pos())
+		}
+	}
 	if name == "(*sync.Once).Do" && len(args) == 2 {
 		if mc, ok := args[1].(*ssa.MakeClosure); ok {
 			v.encodeOnceDo(ins, args[0], mc)
